@@ -19,7 +19,7 @@ META = {
     'assumptions': ['harness permutation parity (kvm/iso.py)'],
 }
 SHARD_DEADLINE = {'quick': 300, 'thorough': 3300}
-FORMS = ['keys-int', 'keys-name', 'keys-mixed', 'mapping-int', 'mapping-name', 'kw-canonical', 'kw-permuted', 'kw-mixed', 'grades-values',
+FORMS = ['keys-int', 'keys-name', 'keys-mixed', 'mapping-int', 'mapping-name', 'mapping-permuted-name', 'keys-permuted-name', 'kw-canonical', 'kw-permuted', 'kw-mixed', 'grades-values',
          'convenience-values', 'convenience-kw', 'name', 'fromkeysvalues', 'full-values']
 BAD = ['length-mismatch', 'length-mismatch-grades', 'keys-outside-grades', 'kw-outside-grades', 'invalid-grade', 'negative-grade',
        'graded-incomplete-keys', 'graded-incomplete-mapping', 'graded-incomplete-kw', 'graded-incomplete-name', 'graded-incomplete-fromkw-perm',
@@ -31,9 +31,9 @@ def floors(tier):
     f = {'distinct_nontrivial': 2000 if tier == 'quick' else 40000, 'getattr_reads': 30000, 'permuted_spelling_reads': 10000,
          'items_reads': 2000, 'contains_reads': 4000, 'grade_reads': 2000, 'asfullmv_reads': 2000, 'map_reads': 2000, 'filter_reads': 3000,
          'inconsistent_inputs_tried': 400, 'inconsistent_inputs_raised': 300, 'custom_basis_cases': 300, 'graded_cases': 200,
-         'even_permuted_keyword_spellings': 50, 'odd_permuted_keyword_spellings': 50}
+         'even_permuted_keyword_spellings': 50, 'odd_permuted_keyword_spellings': 50, 'twin_start_index_algebras': 5}
     for fm in FORMS:
-        f['form_' + fm] = 80
+        f['form_' + fm] = 80 if 'permuted-name' not in fm else 0
     return f
 
 
@@ -88,11 +88,21 @@ def run_shard(shard, ctx):
             continue
         iso = Iso(alg)
         ctx.count('algebras')
+        # a twin algebra that differs in the start index only lives in the same process and is used alternately
+        twin = None
+        if not cfg.get('basis') and not cfg.get('named'):
+            tcfg = dict(cfg, start_index=(gen.effective_start(cfg) + 1) % 3)
+            twin_alg = gen.make_or_skip(ctx, tcfg)
+            if twin_alg is not None:
+                twin = (twin_alg, Iso(twin_alg), tcfg, gen.cfg_str(tcfg))
+                ctx.count('twin_start_index_algebras')
         for form in FORMS:
-            for _ in range(unit['per_form']):
+            for j_ in range(unit['per_form']):
                 if ctx.out_of_time():
                     ctx.count('cases_skipped_out_of_time')
                     return
+                if twin is not None and j_ % 3 == 0:
+                    good_case(ctx, twin[0], twin[1], twin[2], twin[3], form)
                 good_case(ctx, alg, iso, cfg, name, form)
         for what in BAD:
             for _ in range(max(2, unit['per_form'] // 4)):
@@ -153,7 +163,7 @@ def good_case(ctx, alg, iso, cfg, name, form):
     table = []
     for i, cn in enumerate(names_sel):
         mode = 'canonical'
-        if form == 'kw-permuted' or (form in ('kw-mixed', 'convenience-kw') and rng.random() < 0.5):
+        if form in ('kw-permuted', 'mapping-permuted-name', 'keys-permuted-name') or (form in ('kw-mixed', 'convenience-kw') and rng.random() < 0.5):
             mode = 'permuted'
         sp, par = spell(rng, alg, cn, mode)
         v = value_of(rng, kind, i)
@@ -182,6 +192,11 @@ def good_case(ctx, alg, iso, cfg, name, form):
             return alg.multivector({t['key']: t['value'] for t in tb})
         if form == 'mapping-name':
             return alg.multivector({t['canon']: t['value'] for t in tb})
+        if form == 'mapping-permuted-name':
+            # kingdon may refuse permuted spellings here (recorded); if it accepts them the coefficient belongs to that spelling
+            return alg.multivector({t['spelling']: t['value'] for t in tb})
+        if form == 'keys-permuted-name':
+            return alg.multivector(values=[t['value'] for t in tb], keys=tuple(t['spelling'] for t in tb))
         if form in ('kw-canonical', 'kw-permuted', 'kw-mixed'):
             return alg.multivector(**{t['spelling']: t['value'] for t in tb})
         if form == 'grades-values':
